@@ -99,8 +99,10 @@ ParseItem(b, pos, limit, depth) ==
     ELSE LET len == U(b, pos + 4, 4)
              start == pos + 8
              padded == len + PadLen(len) IN
-    IF len > limit - start THEN Fail("value runs past the enclosing length", pos)      \* (first: no 32-bit overflow below)
-    ELSE IF start + padded > limit THEN Fail("value runs past the enclosing length", pos)
+    IF len > limit - start \/ start + padded > limit      \* (the first disjunct first: no 32-bit overflow in the second)
+    THEN Fail(IF typ = TStructure THEN "structure runs past the enclosing length"
+              ELSE IF typ \in {TText, TBytes, TBigInt} THEN "variable-length value runs past the enclosing length"
+              ELSE "value runs past the enclosing length", pos)
     ELSE IF FixedLen(typ) # -1 /\ len # FixedLen(typ) THEN Fail("wrong length for a fixed-size type", pos)
     ELSE IF typ = TBigInt /\ (len % 8 # 0 \/ len = 0) THEN Fail("big integer length not a positive multiple of 8", pos)
     ELSE IF \E i \in (start + len)..(start + padded - 1) : b[i] # 0 THEN Fail("non-zero padding", pos)
